@@ -5,3 +5,4 @@ open GoMail.Props.C18
 #print axioms linebreaker_invariant
 #print axioms b64_body_lines
 #print axioms body_chunk_independent
+#print axioms header_fold
